@@ -11,7 +11,7 @@ from pathlib import Path
 
 from . import repo_common as rc
 from . import c15
-from .. import harness, repodrv, tlc
+from .. import fsgate, harness, repodrv, tlc
 
 LEVEL = 'model_checking'
 CLAUSES = c15.CLAUSES + ['P:Safety', 'P:CleanExact', 'P:CommitComplete', 'P:SnapshotFaithful']
@@ -65,6 +65,30 @@ def damage_phase(sess, caches, quick, desc):
                 cf.write_bytes(orig)
 
 
+GATE = {'pairs': 0, 'calls': 0}
+
+
+def racing_phase(sess, cache, desc, rounds):
+    """two clients start with the same EMPTY cache directory at the same time; their file-system calls in the cache are made to
+    coincide (rv/fsgate.py), the situation in which a check-then-act sequence on the cache directory goes wrong"""
+    import shutil
+    r = sess.rng
+    for i in range(rounds):
+        shutil.rmtree(cache, ignore_errors=True)
+        us = [r.choice(sess.users), r.choice(sess.users)]
+        with fsgate.Rendezvous(cache) as gate:
+            sess.ctx = 'two clients, one empty cache directory, simultaneous cache writes'
+            os_ = harness.run_parallel([(lambda u=us[0]: sess.restore(u)), (lambda u=us[1]: sess.restore(u))])
+            sess.ctx = None
+        desc.append('racing-cold-cache(restore(%s) || restore(%s))->%s pairs=%d/%d' % (us[0], us[1], [getattr(o, 'etype', repr(o)) for o in os_], gate.pairs, gate.calls))
+        GATE['pairs'] += gate.pairs
+        GATE['calls'] += gate.calls
+        for o in os_:
+            if isinstance(o, BaseException):
+                raise o
+    return desc
+
+
 def variant(run, g, seed, mode, quick):
     traces = []
     with harness.scratch() as d:
@@ -87,6 +111,8 @@ def variant(run, g, seed, mode, quick):
             if mode == 'shared':
                 caches = {s.users[0]: cache}
             damage_phase(s, caches, quick, desc)
+        if mode == 'shared':
+            racing_phase(s, cache, desc, 2 if quick else 6)
         traces.append(s.trace(extra={'history': desc, 'opts': {'cache': mode}}))
         run.case((g, seed, mode, len(desc)))
     return traces
@@ -112,9 +138,10 @@ def main(run):
             for mode in ('none', 'private', 'shared', 'tworepos'):
                 traces += variant(run, g, seed, mode, quick)
     rc.validate(run, traces, CLAUSES, label='c18.cache-variants')
+    run.add(cache_fs_calls_under_rendezvous=GATE['calls'], cache_fs_calls_made_to_coincide=2 * GATE['pairs'])
     run.coverage['rule'] = ('a case is one evolving history on one key graph under one cache arrangement (none / private per user / shared between '
                             'users / shared between two repositories), the private and shared ones followed by the truncation of every cache entry to '
-                            'proper prefixes and its removal; stale caches arise because other users delete and add snapshots in between')
+                            'proper prefixes and its removal, the shared one also by two clients filling the emptied directory at the same moment; stale caches arise because other users delete and add snapshots in between')
     run.assumptions += ['an interrupted cache write leaves a proper prefix of the entry, an empty file or no file']
 
 
